@@ -498,13 +498,12 @@ Proof.
   simpl in Hco. now inversion Hco.
 Qed.
 
-(** Push.  The only difference to the specification: with capacity <= 0 the
-    empty queue is "full" and the code dereferences the nil tail. *)
+(** Push.  With capacity <= 0 the empty queue is "full" and has no tail: both
+    sides answer ErrMemFull. *)
 Lemma sim_push cap q l it :
   R cap q l ->
   R cap (fst (q_push it q)) (fst (spec_push cap it l)) /\
-  (snd (q_push it q) = snd (spec_push cap it l) \/
-   (cap <= 0 /\ l = [] /\ snd (q_push it q) = EPanic /\ snd (spec_push cap it l) = EFull)).
+  snd (q_push it q) = snd (spec_push cap it l).
 Proof.
   intros H. pose proof H as [Hc Hb Hco Hm Hby Hn Hs Hw].
   unfold q_push, spec_push, q_exist.
